@@ -41,6 +41,7 @@ namespace bxdecay0 {
                  const double thlev_,
                  double & tdlev_)
   {
+    BXDECAY0_VERIF_SCOPE("PbAtShell", KLMenergy_, tclev_, thlev_);
     // double t;
     int Lhole;
     int Mhole;
